@@ -1,6 +1,7 @@
 package main
 
 import (
+	"context"
 	"fmt"
 	"strings"
 	"math/rand"
@@ -337,3 +338,5 @@ func shortRaceKey(report string) string {
 	}
 	return strings.Join(fns, "|")
 }
+
+func ctxBackground() context.Context { return context.Background() }
